@@ -6,7 +6,7 @@ from .lvs import raising_edge, cmp_sides
 from ..flow import callee_attr
 from ..loader import AnalysisError, norm, FuncT
 from ..models import models_of
-from ..tlvtables import uint_tables, compare_uint
+from ..tlvtables import uint_tables, compare_uint, varnum_tables, compare_varnum
 
 TM = 'ndn.encoding.tlv_model'
 PARSE = TM + '.TlvModel.parse'
@@ -103,6 +103,18 @@ def scan_loop_rules(R, oid):
             R.fail(oid, inst, PARSE, loopt[0].ast, 'an element can be processed without skipping its value (the scan would re-read value bytes as TLVs)', site(pr, loopt[0].ast))
         else:
             R.ok(oid, inst, site(pr, advs[-1].ast))
+    else:
+        R.fail(oid, inst, PARSE, 'def parse', 'scan loop shape not recognised', site(pr, pr.f.node))
+    # the scan stops only when the buffer is exhausted: elements behind the last declared field are still examined
+    inst = PARSE + ' :: the scan ends only at the end of the buffer'
+    if len(loopt) == 1:
+        early = [r for r in returns(pr) if r.id in pr.cfg.reachable(removed_edges={(loopt[0].id, False)}, follow_exc=False)]
+        if early:
+            R.fail(oid, inst, PARSE, loopt[0].stmt.test if isinstance(loopt[0].stmt, ast.While) else early[0].ast,
+                   'the decoder can return before offset reaches len(wire): trailing elements (an unknown critical one, a repeated one) are accepted unexamined',
+                   site(pr, early[0].ast))
+        else:
+            R.ok(oid, inst, site(pr, loopt[0].ast))
     else:
         R.fail(oid, inst, PARSE, 'def parse', 'scan loop shape not recognised', site(pr, pr.f.node))
 
@@ -205,6 +217,89 @@ def bounds_rule(R, oid, qual, length_vars, sink_kinds):
             R.paths_examined += 1
 
 
+def extent_rule(R, oid, qual, remaining):
+    """BND.2 (quantitative part of the bounds rule for a straight-line scan loop): the quantity compared with the bytes remaining
+    covers the whole extent (Type + Length + Value) of the slice taken, and the remaining count is decreased by that extent.
+    Symbols: every value read from parse_tl_num is a non-negative unknown; arithmetic is linear (no solver)."""
+    from ..linexpr import lin, show, NotLinear, _add
+    cx = ctx(R, qual)
+    loops = [x for x in ast.walk(cx.f.node) if isinstance(x, ast.While) and any(isinstance(y, ast.Name) and y.id == remaining for y in ast.walk(x.test))]
+    R.need(len(loops) == 1, f'{qual}: scan loop over `{remaining}` not found')
+    env = {}
+
+    def ev(e):
+        d = {}
+        try:
+            raw = lin(e)
+        except NotLinear as ex:
+            raise AnalysisError(f'{qual}: cannot follow `{ex}` in the scan loop')
+        for t, c in raw.items():
+            d = _add(d, env.get(t, {t: 1}) if t != 1 else {1: 1}, c)
+        return d
+    facts, sinks, decs = [], [], []
+    size_syms = set()
+    for st in loops[0].body:
+        if isinstance(st, ast.Assign) and len(st.targets) == 1:
+            t = st.targets[0]
+            if isinstance(t, ast.Tuple) and isinstance(st.value, ast.Call) and ast.unparse(st.value.func).endswith('parse_tl_num'):
+                for k_, e in enumerate(t.elts):
+                    if isinstance(e, ast.Name):
+                        env[e.id] = {f'{e.id}': 1} if e.id != '_' else {'_typ': 1}
+                        if k_ == 1:
+                            size_syms.add(e.id)      # second element of parse_tl_num: bytes consumed, always >= 1
+                continue
+            if isinstance(t, ast.Name):
+                env[t.id] = ev(st.value)
+                continue
+            raise AnalysisError(f'{qual}: unexpected statement `{norm(st)}` in the scan loop')
+        if isinstance(st, ast.AugAssign) and isinstance(st.target, ast.Name) and isinstance(st.op, (ast.Add, ast.Sub)):
+            k = 1 if isinstance(st.op, ast.Add) else -1
+            if st.target.id == remaining:
+                decs.append((st, ev(st.value), k))
+            env[st.target.id] = _add(env.get(st.target.id, {st.target.id: 1}), ev(st.value), k)
+            continue
+        if isinstance(st, ast.If) and not st.orelse and len(st.body) == 1 and isinstance(st.body[0], ast.Raise) and isinstance(st.test, ast.Compare) \
+                and len(st.test.ops) == 1 and isinstance(st.test.ops[0], (ast.Gt, ast.GtE, ast.Lt, ast.LtE)):
+            l, r = ev(st.test.left), ev(st.test.comparators[0])
+            op = st.test.ops[0]
+            if isinstance(op, (ast.Lt, ast.LtE)):
+                l, r = r, l
+            # after the test: l <= r (strict variants only make it stronger / off by one is decided by TBL rules)
+            f = _add(l, r, -1)
+            if isinstance(op, (ast.GtE, ast.LtE)):
+                f = _add(f, {1: 1})      # l >= r raises  =>  l <= r - 1
+            facts.append((st, f))
+            continue
+        if isinstance(st, ast.Expr):
+            for x in ast.walk(st.value):
+                if isinstance(x, ast.Subscript) and isinstance(x.slice, ast.Slice) and x.slice.lower is not None and x.slice.upper is not None:
+                    sinks.append((x, _add(ev(x.slice.upper), ev(x.slice.lower), -1), list(facts)))
+            continue
+        raise AnalysisError(f'{qual}: unexpected statement `{norm(st)}` in the scan loop')
+    R.need(sinks, f'{qual}: no component slice found in the scan loop')
+    for (x, extent, fs) in sinks:
+        inst = f'{qual} :: the bound covers the whole element `{norm(x)}`'
+        need = _add(extent, {remaining: 1}, -1)          # must be <= 0
+        good = False
+        for (st, f) in fs:
+            diff = _add(need, f, -1)                    # need = f + diff, f <= 0, so diff <= 0 suffices (all symbols >= 0)
+            if all(c <= 0 for c in diff.values()):
+                good = True
+        if good:
+            R.ok(oid, inst, site(cx, x), f'extent {show(extent)} <= {remaining}')
+        else:
+            R.fail(oid, inst, qual, x, f'the element sliced out spans `{show(extent)}` bytes but the check before it only bounds '
+                   f'{[show(_add(f, {remaining: 1})) for (_, f) in fs] or "nothing"} by `{remaining}`: a component can run past the end of its parent into the next element',
+                   site(cx, x))
+    inst = f'{qual} :: remaining length decreases by the element extent'
+    if len(decs) == 1 and decs[0][2] == -1 and sinks and decs[0][1] == sinks[-1][1]:
+        R.ok(oid, inst, site(cx, decs[0][0]), show(decs[0][1]))
+    else:
+        R.fail(oid, inst, qual, decs[0][0] if decs else 'def decode', f'`{remaining}` is not decreased by exactly the bytes consumed '
+               f'({[show(d[1]) for d in decs]} vs {show(sinks[-1][1]) if sinks else "?"})', site(cx, decs[0][0] if decs else cx.f.node))
+    return decs, size_syms
+
+
 def _raises(cx, t, lab):
     r = reach_from_succ(cx.cfg, t, lab, follow_exc=False)
     byid = {n.id: n for n in cx.cfg.nodes}
@@ -220,6 +315,8 @@ def run(R):
     bounds_rule(R, 'C07.BND.1', PARSE, {'length'}, {'arg', 'slice'})
     bounds_rule(R, 'C07.BND.1', 'ndn.encoding.name.Name.decode', {'length', 'len_comp'}, {'slice'})
     bounds_rule(R, 'C07.BND.1', 'ndn.encoding.tlv_var.parse_and_check_tl', {'size'}, {'slice'})
+    R.ob('C07.BND.2', 'Name.decode: the per-component bound covers Type + Length + Value of the component, and the remaining Name length decreases by exactly that')
+    name_decs, name_sizes = extent_rule(R, 'C07.BND.2', 'ndn.encoding.name.Name.decode', 'length')
     # ------------------------------------------------------------------ ESC.1
     R.ob('C07.ESC.1', 'the decoders raise only the documented decoding errors (DecodeError, IndexError, ValueError, struct.error, TypeError)')
     for q in DECODERS:
@@ -286,6 +383,61 @@ def run(R):
             R.ok('C07.FLD.1', inst, P.path_of(q.rsplit('.', 1)[0]))
         else:
             R.fail('C07.FLD.1', inst, q, fname, f'{fname} is not encoded with the fixed width {want}', P.path_of(q.rsplit('.', 1)[0]))
+    # ------------------------------------------------------------------ TBL.3 Type / Length numbers
+    R.ob('C07.TBL.3', 'parse_tl_num reads Type and Length numbers by the VAR-NUMBER table: 1/3/5/9 bytes selected by the first octet, each multi-byte form '
+                      'read with a fixed-width unpack that raises on a truncated buffer')
+    vt = varnum_tables(P, ('get_tl_num_size', 'write_tl_num', 'parse_tl_num'))
+    for (what, a, b, okay, detail) in compare_varnum(vt, only=('parse_tl_num',)):
+        inst = f'{a} :: {what}'
+        if okay:
+            R.ok('C07.TBL.3', inst, vt[a]['site'], detail)
+        else:
+            R.fail('C07.TBL.3', inst, 'ndn.encoding.tlv_var.' + a, what, f'{a} departs from the VAR-NUMBER table in {what}: {detail}', vt[a]['site'])
+    R.minimum('C07.TBL.3', 4)
+    # ------------------------------------------------------------------ FLD.2 where critical elements may be ignored
+    R.ob('C07.FLD.2', 'unknown / misplaced critical elements are tolerated only where the format says so (Data and certificate SignatureInfo, the LP header, RDR metadata)')
+    LENIENT_FIELDS = {('ndn.encoding.ndn_format_0_3', 'DataPacketValue', 'signature_info'), ('ndn.encoding.ndn_format_0_3_2017', 'DataPacketValue', 'signature_info'),
+                      ('ndn.app_support.security_v2', 'CertificateV2Value', 'signature_info')}
+    LENIENT_CALLS = {('ndn.encoding.ndnlp_v2.parse_network_nack', 'LpPacketValue'), ('ndn.encoding.ndnlp_v2.parse_lp_packet_v2', 'LpPacketValue'),
+                     ('ndn.encoding.ndnlp_v2.parse_lp_packet', 'LpPacketValue'), ('ndn.schema.simple_node.RDRNode.need', 'MetaDataValue')}
+    nf = 0
+    for mc_, fields in sorted(M.all.items()):
+        for f in fields:
+            for g in (f, f.elem, f.value):
+                if g is None or g.kind != 'ModelField':
+                    continue
+                nf += 1
+                key = (mc_[0], mc_[1], f.name)
+                inst = f'{mc_[0]}.{mc_[1]}.{f.name} :: critical elements inside are checked'
+                if g.ignore_critical and key not in LENIENT_FIELDS:
+                    R.fail('C07.FLD.2', inst, f'{mc_[0]}.{mc_[1]}', f.name, f'the nested element `{f.name}` is decoded with ignore_critical=True: duplicated, out-of-order or unknown '
+                           'critical elements inside it are skipped instead of refused', P.path_of(mc_[0]))
+                else:
+                    R.ok('C07.FLD.2', inst, P.path_of(mc_[0]), 'lenient by format' if g.ignore_critical else 'strict')
+    R.need(nf >= 30, f'only {nf} nested-model fields found')
+    for q, f in sorted(P.funcs.items()):
+        if isinstance(f.node, ast.Lambda):
+            continue
+        for c in ast.walk(f.node):
+            if not (isinstance(c, ast.Call) and callee_attr(c) == 'parse'):
+                continue
+            ic = None
+            if len(c.args) >= 3:
+                ic = c.args[2]
+            for k in c.keywords:
+                if k.arg == 'ignore_critical':
+                    ic = k.value
+            if ic is None or (isinstance(ic, ast.Constant) and not ic.value):
+                continue
+            if isinstance(ic, ast.Name) and ic.id == 'ignore_critical' or (isinstance(ic, ast.Attribute) and ic.attr == 'ignore_critical'):
+                continue    # forwarded flag
+            model = ast.unparse(c.func.value).rsplit('.', 1)[-1]
+            base = q.split('.<')[0]
+            inst = f'{base} :: {model}.parse(ignore_critical=...)'
+            if (base, model) in LENIENT_CALLS:
+                R.ok('C07.FLD.2', inst, f.loc(), 'lenient by format')
+            else:
+                R.fail('C07.FLD.2', inst, q, c, f'`{ast.unparse(c)[:80]}` switches the critical-element rule off for {model}', f.loc())
     # ------------------------------------------------------------------ TBL.2 scan loop
     R.ob('C07.TBL.2', 'scan loop: found single field -> next position, repeated/map -> same position; unknown critical -> DecodeError')
     scan_loop_rules(R, 'C07.TBL.2')
@@ -295,9 +447,12 @@ def run(R):
     wt = [t for t in nd.cfg.nodes if t.kind == 'test' and cmp_sides(t.ast) in (('length', ast.Gt, '0'),)]
     dec = [n for n in nd.cfg.nodes if n.kind == 'stmt' and isinstance(n.ast, ast.AugAssign) and ast.unparse(n.ast.target) == 'length' and isinstance(n.ast.op, ast.Sub)]
     inst = nd.qual + ' :: remaining length strictly decreases'
-    if len(wt) == 1 and len(dec) == 1 and ast.unparse(dec[0].ast.value) in ('offset - st', '(offset - st)') and \
+    # the amount subtracted (as a linear form over the sizes read by parse_tl_num, from the extent analysis) is positive
+    positive = len(name_decs) == 1 and name_decs[0][2] == -1 and all(c >= 0 for c in name_decs[0][1].values()) and \
+        any(name_decs[0][1].get(sy, 0) >= 1 for sy in name_sizes)
+    if len(wt) == 1 and len(dec) == 1 and positive and \
             wt[0].id not in reach_from_succ(nd.cfg, wt[0], True, removed_nodes={dec[0].id}, follow_exc=False):
-        R.ok('C07.LOP.1', inst, site(nd, dec[0].ast), 'offset - st >= 2 (type + length bytes)')
+        R.ok('C07.LOP.1', inst, site(nd, dec[0].ast), 'decrement includes the type/length sizes (each >= 1)')
     else:
         R.fail('C07.LOP.1', inst, nd.qual, wt[0].ast if wt else 'def decode', 'the component loop can iterate without consuming input', site(nd, nd.f.node))
     pr = ctx(R, PARSE)
